@@ -516,6 +516,8 @@ class ScanStateClient(PathClient):
             v = self.absval(s, value) if not isinstance(value, tuple) else None
             if v is None:
                 raise AnalysisError('RNG-SCANSTATE: cannot abstract the value stored by `%s`' % src_of(stmt))
+            if target.attr == 'property_start' and self.fld(s, 'property_start') == 'NN' and v is not None and not (isinstance(value, ast.Constant)):
+                self.bad(stmt, src_of(stmt), 'a recorded property start is overwritten (first colon wins): with two single colons in one selector (a:hover, a:focus) the selector then starts mid-way', s)
             return s.set(('fld', target.attr), v)
         if isinstance(target, ast.Name) and target.id == self.sv:
             for fl in self.FIELDS:
@@ -565,6 +567,7 @@ def rng_scanstate(p, res):
     explore(p, f, c)
     if len(c.notifies) < 6:
         raise AnalysisError('RNG-SCANSTATE: only %d notify sites explored' % len(c.notifies))
+    emit(res, 'RNG-SCANSTATE', f, c)
     for (src, ln), rec in sorted(c.notifies.items(), key=lambda kv: kv[0][1]):
         if rec['bad'] is not None:
             what, s = rec['bad']
